@@ -71,7 +71,7 @@ func c07Gen(rt *rapid.T) c07Case {
 			}
 		}
 	}
-	c.x = rangeT(dt, shape)
+	c.x = rangeSpecialT(dt, shape, rapid.IntRange(0, 63).Draw(rt, "contents"))
 	r := len(shape)
 	n := prod(shape)
 	c.valid = true
